@@ -211,24 +211,26 @@ ADDENDA = {
            "else floored / ceiled; pen and box share one tolerance.",
     "C10": "For a designspace the kerning groups are collected from every source's font (both kern writers).",
     "C19": "Master and instance locations are normalised by one function with nothing applied on top (sibling agreement over the instantiator module).",
+    "C06": "The three contextual anchor tables are enumerated in full and every pair reaches the lookup builder.",
     "C16": "Name-record keys follow the (nameID, platform, encoding, language) tuple of the UFO record; InfoCompiler._set_attrs copies every listed "
-           "attribute; every bit-list attribute is converted over the whole range of bits the UFO specification allows.",
+           "attribute; every bit-list attribute is converted over the whole range of bits the UFO specification allows. Stem entries of the CFF Private dict depend on the stem attributes alone, blues entries on the blues attributes alone.",
     "C05": "Kerning class names pass through unchanged; a glyph's scripts are folded into Common exactly under `scripts & DFLT_SCRIPTS` (Zyyy, Zinh).",
     "C03": "Production-name renaming leaves order and cmap alone (shared with C11).",
-    "C01": "Only the listed builders write advances (who-may-write table); only missing glyphs are generated.",
-    "C12": "defaultWidthX / nominalWidthX are made integers by their one producer and used unchanged by both consumers (private dict and charstrings).",
+    "C01": "Only the listed builders write advances (who-may-write table); only missing glyphs are generated. CFF FontMatrix = 1 / unitsPerEm; compileOutlines only overrides "
+           "reviewed option-table entries; include / decomposeNested / reverseFlipped reach the decomposing pen as the untouched parameters.",
+    "C12": "defaultWidthX / nominalWidthX are made integers by their one producer and used unchanged by both consumers (private dict and charstrings). In the constructor the optimisation level only determines the field that carries it.",
     "C17": "User GDEF definitions (classes and caret statements, read from fontTools.feaLib.ast) are kept; generated blocks are appended at the top level; "
            "the include directory of the source is forwarded.",
-    "C11": "Post-processing is applied per font, on that font's own glyph-name map.",
-    "C18": "Every glyph of the set is a cursive candidate; anchors are read by their slot (entry / exit).",
+    "C11": "Post-processing is applied per font, on that font's own glyph-name map. _reloadFont writes nothing on the font and passes no other option to save / open.",
+    "C18": "Every glyph of the set is a cursive candidate; anchors are read by their slot (entry / exit). The designspace-rule substitution table keeps every (left, right) of every rule.",
     "C14": "The include / exclude predicates of BaseFilter are installed under `is not None` facts (an empty include list selects nothing; "
            "callable(x) implies x given; an empty exclude list equals the default).",
     "C15": "The reverseFlipped flag forwarded to the decomposing pen is the untouched parameter; component recursion in anchor propagation is unconditional; "
            "base / mark components partition the components.",
     "C20": "Generated feature blocks are appended at the top level of the feature file; languages are filed per script tag.",
-    "C09": "Per-master accumulators are never shared between masters (shared with C02 / C15).",
-    "C02": "Decomposition of mixed / transformed composites precedes curve conversion; the generated .notdef follows the outline type's contour direction.",
-    "C13": "The designspace's skip list has the last word in the lib of a generated instance; the union runs over every UFO.",
+    "C09": "Per-master accumulators are never shared between masters (shared with C02 / C15). A composite is interpolated exactly into the masters at needLocations - haveLocations.",
+    "C02": "Decomposition of mixed / transformed composites precedes curve conversion; the generated .notdef follows the outline type's contour direction. No package code edits the outline fields of a compiled glyph (empty who-may-write set, reviewed flag bits only); option overrides of compileOutlines are a reviewed table.",
+    "C13": "The designspace's skip list has the last word in the lib of a generated instance; the union runs over every UFO. include / decomposeNested reach the decomposing pen as the untouched parameters.",
 }
 for _k, _v in ADDENDA.items():
     CHECKS[_k]["text"] += " " + _v
